@@ -661,6 +661,27 @@ fn function_key_inputs() -> Vec<String> {
     out
 }
 
+/// Every character below `top` (and a few beyond) in the spellings a key file can contain: bare, double and
+/// single quoted, with modifiers on either side, inside chords. Raw strings: the quoted spellings of control
+/// characters are never produced by printing a value.
+fn character_forms_sweep(top: u32) -> ParseAcc {
+    const FORMS: [&str; 10] = ["{}", "\"{}\"", "'{}'", "ctrl+{}", "ctrl+\"{}\"", "\"{}\"+alt+shift", "a \"{}\"", "\"{}\" f1", "ctrl+x \"{}\" f1", "\"{}{}\""];
+    let mut points: Vec<u32> = (0..top).collect();
+    points.extend([0xfb00, 0xfffd, 0x1f600, 0x10ffff]);
+    points
+        .into_par_iter()
+        .fold(ParseAcc::default, |mut acc, cp| {
+            if let Some(c) = char::from_u32(cp) {
+                let c = c.to_string();
+                for form in FORMS {
+                    acc.feed(&form.replace("{}", &c), &TYPES);
+                }
+            }
+            acc
+        })
+        .reduce(ParseAcc::default, ParseAcc::merge)
+}
+
 fn key_names(thorough: bool) -> Vec<KeyName> {
     use KeyName::*;
     let mut v = vec![
@@ -914,12 +935,13 @@ pub fn run(ctx: &Ctx) -> Result<Report, String> {
     for s in function_key_inputs() {
         fk.feed(&s, &TYPES);
     }
+    let cf = character_forms_sweep(ctx.tier.pick(0x3000, 0x11_0000));
     let (pv, printed_values, print_parse_identity) = printed_values_sweep(ctx.tier.pick(false, true));
     lap("parsers", &mut timing);
     let mut parse_cov = serde_json::Map::new();
     let mut parse_evals = 0;
     let mut parse_accepted = 0;
-    for (name, acc) in [("token_strings", tok), ("function_key_digits", fk), ("printed_values", pv)] {
+    for (name, acc) in [("token_strings", tok), ("function_key_digits", fk), ("character_forms", cf), ("printed_values", pv)] {
         parse_cov.insert(
             name.to_string(),
             json!({"inputs": acc.inputs, "evaluations": acc.evaluations, "accepted_and_round_tripped": acc.accepted, "rejected": acc.rejected, "distinct_accepted_values": acc.distinct.len()}),
